@@ -23,6 +23,15 @@ ABSORBS = {
     "method-target-written-at-module-level": {"not-found", "wrong-type", "again1", "again2+", "statements"},
     "module-docstring-reindented": {"module-docstring-only"},
     "other-docstring-reformatted": {"docstrings-only"},
+    # X = f(X) next to the definition: the assignment is replaced by the new definition; a function definition stays stale
+    "same-named-binding-replaced": {"rebinding-replaced", "interface"},
+}
+
+
+PERSISTS = {
+    "method-target-written-at-module-level": {"not-found", "wrong-type"},
+    "found-definition-not-replaced": {"interface"},
+    "same-named-binding-replaced": {"interface"},
 }
 
 
@@ -35,8 +44,39 @@ def _present(old, name):
         return False
 
 
+def _enclosing(old, name):
+    if old is None or "." not in name:
+        return False
+    try:
+        return isinstance(J.located(ast.parse(old), name.rsplit(".", 1)[0]), ast.ClassDef)
+    except SyntaxError:
+        return False
+
+
+def _rebinding(old, name):
+    """the node that a rewrite at the target's location hits is an assignment to the target's name, not its definition"""
+    if old is None:
+        return False
+    try:
+        tree = ast.parse(old)
+    except SyntaxError:
+        return False
+    body = tree.body
+    if "." in name:
+        enc = J.located(tree, name.rsplit(".", 1)[0])
+        if not isinstance(enc, ast.ClassDef):
+            return False
+        body = enc.body
+    # RewriteAtQuery replaces the first node at the searched location that is not a FunctionDef (those it never replaces):
+    # the observation is whether that node is an assignment rather than the (class) definition itself
+    short = name.split(".")[-1]
+    first = next((s for s in body if J.binds(s, short) or (isinstance(s, ast.ClassDef) and s.name == short)), None)
+    return first is not None and not isinstance(first, ast.ClassDef)
+
+
 def obs_of(call, name):
-    return [call["old"] is not None, bool(call["found"]), bool(call["cmp"]), bool(call["replaced"]), _present(call["old"], name)]
+    return [call["old"] is not None, bool(call["found"]), bool(call["cmp"]), bool(call["replaced"]), _present(call["old"], name),
+            _enclosing(call["old"], name), _rebinding(call["old"], name)]
 
 
 def classify(res):
@@ -118,9 +158,13 @@ def evaluate(rng, tier, judge, n_quick=150, n_thorough=1500, runs=3, cli_share=0
                 # was installed persists (a method written at module level stays there), so the class of the first
                 # run is tried last.  A class stands only for the ways of failing listed in ABSORBS.
                 first_run = f["facts"].get("run", 0) == 0
-                cand = [classes[(k, "install")]] if first_run else \
-                    [classes.get((k, "edit")), classes[(k, "install")]] if f.get("phase") == "edit" else \
-                    [classes[(k, "repeat")], classes[(k, "install")]]
+                inst = classes[(k, "install")]
+                # in later phases the installation class stands only for what persists (the definition sits where the
+                # first run put it), not for bytes changing again
+                inst_later = inst if f["kind"] in PERSISTS.get(inst, ()) else None
+                cand = [inst] if first_run else \
+                    [classes.get((k, "edit")), inst_later] if f.get("phase") == "edit" else \
+                    [classes[(k, "repeat")], inst_later]
                 cls = next((c for c in cand if c is not None and f["kind"] in ABSORBS.get(c, (f["kind"],))), None)
             else:
                 cls = None
